@@ -73,6 +73,16 @@ PROPS["C15"] = {
     "assumptions": ["poll_stream/append_pending precondition: buffer length fits usize; a parked pending chunk is non-empty (established by the functions themselves)"],
 }
 
+PROPS["C12"] = {
+    "units": ["web_payload_body", "multipart_payload"],
+    "kani": [],
+    "technique": "Verus contracts with a loop invariant over a prophesied chunk sequence: the extractor's poll loop computes exactly the limit-checked fold `collect`; chunking independence as a lemma",
+    "level_text": "deductive proof, for all chunk sequences, limits and suspension points, that HttpMessageBody::poll (bytes/string extractors) returns exactly collect(chunks, limit): the concatenation if it fits, Overflow as soon as a prefix sum exceeds the limit, the stream's error otherwise; that it never holds more than `limit` bytes (plus the chunk in hand); that a declared Content-Length above the limit is refused before reading (limit()); and (lemma) that the outcome is a function of the concatenation and the limit only; the multipart buffer bound is PayloadBuffer's (C15 unit)",
+    "level_note": "assumes a finite body stream (prophesied remainder) that obeys the Stream contract, BytesMut/Bytes shims, allocations <= isize::MAX; the decompressor wrapped around the payload is a dependency (the limit applies to its output because the field `stream` has type Decompress<Payload> - checked structurally by the extracted struct)",
+    "not_decided": ["JsonBody / UrlEncoded / to_bytes_limited / multipart form field limits: units under construction", "content decoding itself (flate2/brotli/zstd)"],
+    "assumptions": ["HttpMessageBody::poll precondition: the buffer starts within the limit (established by new(): empty buffer)"],
+}
+
 _PENDING = "not claimed yet: contracts for this property are still under construction in this session"
 NOT_APPLICABLE = {("C%02d" % i): _PENDING for i in range(1, 20)}
 NOT_APPLICABLE["C06"] = "every clause is about instants (deadlines vs. arrival times, runtime timer ordering); no function contract expresses virtual time or scheduler ordering (DESIGN.md section 4 C06)"
